@@ -138,3 +138,23 @@ Proof. vm_compute. auto. Qed.
 Example C13_ex_wsdl : trace ex_cfg (Req true (WBuild (Some 5599)) None [] false SOk SOk (URaise FOther) SerExn (ESerExn OtherExn) None true)
   = [Start RWsdl200 (Some 5599); Chunk 5599; CtxClose].
 Proof. reflexivity. Qed.
+
+(** the response iterable statement by statement ([ri_close_steps] is generated from
+    _ResponseIterator.close): with a close callback that does not raise it is the [serve]
+    the theorems above are about ... *)
+Theorem C13_iterator_refines : forall fin ch f tk cl,
+  serve_it ch f fin false tk cl = serve ch f fin tk cl.
+Proof. exact serve_it_refines. Qed.
+
+(** ... and when the close callback raises (a wsgi_close listener fails, a ctx.files handle fails
+    to close) the context is still closed exactly once, also after the close() the server owes *)
+Theorem C13_closed_once_failing_close : forall c r cf k cl, In (Start k cl) (trace_cf c r cf) ->
+  closes r = true \/ take r = None -> count is_ctxclose (trace_cf c r cf) = 1%nat.
+Proof. exact closed_once_failing_close. Qed.
+
+(* the streamed answer of ex_req iterated to the end with a failing wsgi_close listener, then close() *)
+Example C13_ex_failing_close :
+  trace_cf ex_cfg (Req false WNoDoc (Some [49; 54; 56]) [100; 30; 38; 0] true SOk SOk
+                       (UReturn (RGen FItem)) (SerOk (BLazy [4; 4] false)) (ESerOk [330]) None true) CFListener
+  = [Read 100 100; Read 68 30; Read 38 38; User; Start ROk None; Chunk 4; Chunk 4; CtxClose; WsgiClose; Raise OtherExn].
+Proof. reflexivity. Qed.
